@@ -350,6 +350,19 @@ func (fr *Frame) evalBinary(sc *Scope, x *EBin) Val {
 			if a.K == KNormal && b.K == KNormal && len(a.C) == 1 && len(b.C) == 1 && a.C[0].Sort != b.C[0].Sort {
 				cfail("comparison of different types in %s (%s vs %s)", ExprString(x), a.C[0].Sort, b.C[0].Sort)
 			}
+			// pointer against interface value: identity of the object the interface holds
+			isIface := func(v Val) bool {
+				if v.K != KNormal || v.T == nil || len(v.C) != 2 {
+					return false
+				}
+				_, ok := v.T.Underlying().(*types.Interface)
+				return ok
+			}
+			if isIface(a) && b.K == KNormal && len(b.C) == 1 {
+				a = scalar(b.T, a.C[1])
+			} else if isIface(b) && a.K == KNormal && len(a.C) == 1 {
+				b = scalar(a.T, b.C[1])
+			}
 			eq = fr.valEq(sc.st, a, b, a.T)
 		}
 		if x.Op == "!=" {
